@@ -619,6 +619,13 @@ def histories(run, r, quick, depth):
 
 # ----------------------------------------------------------------------------------------
 def run(run, replay=None):
+    if replay:
+        # a replay file names the failing (case, part, mode) or history; the tables and histories are
+        # regenerated deterministically from the recorded seed and tier and the whole check is re-executed
+        with open(replay) as f:
+            d = json.load(f)
+        run.seed, run.tier = d.get("seed", run.seed), d.get("tier", run.tier)
+        print("replaying tier=%s seed=%s first=%s" % (run.tier, run.seed, d.get("first", {}).get("key")))
     quick = run.tier == "quick"
     run.rule = ("a case is one (table row, mode) pair executed on a live Representation (all words of the row, every "
                 "public evaluation form), or one replayed history (mode included); distinct_nontrivial counts distinct "
